@@ -22,7 +22,7 @@ ANCHORS = ["decaylanguage.dec.dec:get_definitions", "decaylanguage.dec.dec:get_a
            "decaylanguage.dec.dec:get_lineshape_settings", "decaylanguage.dec.dec:get_lineshapePW_definitions", "decaylanguage.dec.dec:get_global_photos_flag"]
 WORKERS = {"quick": 4, "thorough": 16}
 WTESTS = {"groups": ['parse'], "tests": ['tests/dec'], "counts": ["C01.parse."]}
-REQUIRED = {"copydecay-source-is-another-copy": 10, "multi-file:part-without-final-newline": 10, "queries-asked-twice-with-returned-values-edited": 50, **{f"kind:{k}": 20 for k in KINDS}, **{f"repeated:{k}": 8 for k in KINDS if k not in ("LSPW", "LS", "BW", "CM", "INC", "Photos")},
+REQUIRED = {"particle:width-default-via-alias-declared-for-two-particles": 5, "copydecay-source-is-another-copy": 10, "multi-file:part-without-final-newline": 10, "queries-asked-twice-with-returned-values-edited": 50, **{f"kind:{k}": 20 for k in KINDS}, **{f"repeated:{k}": 8 for k in KINDS if k not in ("LSPW", "LS", "BW", "CM", "INC", "Photos")},
             "repeated-lineshape-setting(must-raise)": 10, "lineshape:several-kinds-one-particle": 10, "photos:absent": 10, "photos:one": 10, "photos:several-last-differs": 5,
             "photos:three-or-more": 5, "particle:width-default-real": 10, "particle:width-default-via-alias": 10, "particle:alias-name-reused-across-files": 5, "particle:explicit-width": 10,
             "jetset:int": 10, "jetset:float": 10, "jetset:signed": 5, "pythia:number": 10, "pythia:word": 10, "statements-between-blocks": 20,
@@ -124,6 +124,11 @@ def gen_file(ctx):
             # the alias must finally point to a real particle: all its declarations do
             if all(s["b"] in widthnames for s in st if s["k"] == "Alias" and s["a"] == n):
                 keys["Particle"].append(n)
+                if r.random() < 0.5:
+                    # the alias is declared once more, for another particle: the later declaration decides whose width is reported
+                    st.append({"k": "Alias", "a": n, "b": r.choice(widthnames)})
+                if len({x["b"] for x in st if x["k"] == "Alias" and x["a"] == n}) >= 2:
+                    hits.append("particle:width-default-via-alias-declared-for-two-particles")
                 st.append({"k": "Particle", "name": n, "mass": "1.5", "width": None})
                 hits.append("particle:width-default-via-alias")
                 if n in ("MyRes", "MyA", "Sig0"):
